@@ -669,6 +669,11 @@ func (c *Client) HandleInbound(data []byte, from net.Addr) (bool, error) {
 	// which no STUN message type shares. Test it first: stun.IsMessage only
 	// looks at bytes 4-8, where a ChannelData payload may carry the magic cookie.
 	case proto.IsChannelData(data):
+		if !c.fromTURNServer(from) {
+			// Relayed data comes from the TURN server only.
+			return true, errRelayedDataFromStranger
+		}
+
 		return true, c.handleChannelData(data)
 	case stun.IsMessage(data):
 		return true, c.handleSTUNMessage(data, from)
@@ -681,6 +686,29 @@ func (c *Client) HandleInbound(data []byte, from net.Addr) (bool, error) {
 	}
 
 	return false, nil
+}
+
+// fromTURNServer reports whether a datagram with this source address can have
+// been sent by the TURN server (always true when no TURN server is configured
+// or the source is unknown).
+func (c *Client) fromTURNServer(from net.Addr) bool {
+	if c.turnServerAddr == nil || from == nil {
+		return true
+	}
+
+	if from.String() == c.turnServerAddr.String() {
+		return true
+	}
+	// The same IP and port may be spelled differently (IPv4-mapped form,
+	// UDP vs TCP address type).
+	fromHost, fromPort, errFrom := net.SplitHostPort(from.String())
+	servHost, servPort, errServ := net.SplitHostPort(c.turnServerAddr.String())
+	if errFrom != nil || errServ != nil || fromPort != servPort {
+		return false
+	}
+	fromIP, servIP := net.ParseIP(fromHost), net.ParseIP(servHost)
+
+	return fromIP != nil && fromIP.Equal(servIP)
 }
 
 func (c *Client) handleSTUNMessage(data []byte, from net.Addr) error { //nolint:cyclop
@@ -699,6 +727,11 @@ func (c *Client) handleSTUNMessage(data []byte, from net.Addr) error { //nolint:
 	if msg.Type.Class == stun.ClassIndication { // nolint:nestif
 		switch msg.Type.Method {
 		case stun.MethodData:
+			if !c.fromTURNServer(from) {
+				// Relayed data comes from the TURN server only.
+				return errRelayedDataFromStranger
+			}
+
 			var peerAddr proto.PeerAddress
 			if err := peerAddr.GetFrom(msg); err != nil {
 				return err
